@@ -15,6 +15,8 @@ def build(tier):
     for sk in (["S2b"] if quick else ["S2b", "S2", "S4"]):
         obs.append(trees.tree_ob("C14 closure", sk, "closure", dict(base, recursive=True, auto_ex=True, has_prefix=False, sep2=False), fixrev=True,
                                  fixp=True, timeout=400 if quick else 2400, note=" (every toctree entry has a target, every page is reachable)"))
+    # index titles name the input directory itself, also when another directory was documented before with the same settings object
+    obs.append(trees.tree_ob('C14 titles', 'S2q' if quick else 'S2', 'hist', dict(base, recursive=True, auto_ex=False, sep2=False), fixexcl=True, fixrev=True, timeout=400 if quick else 2400))
     if not quick:
         obs.append(trees.tree_ob("C14 presence", "S2", "tree", dict(base, recursive=True, auto_ex=True, has_prefix=False, sep2=False),
                                  fixp=False, fixrev=True, timeout=2400))
